@@ -79,6 +79,9 @@ Proof.
     change (eval rho g_z6) with (hz6 rho). change (eval rho g_z7) with (hz7 rho).
     pose proof (sample_between_down (hz6 rho) (hz7 rho) n i ltac:(lia) ltac:(lra)) as B.
     rewrite depth_on_r4 by (assumption || lra). reflexivity.
+  - (* z7, y7 : where the even ground begins *)
+    destruct I as [E|[]]. subst p. cbn [fst snd]. change (eval rho g_z7) with (hz7 rho). change (eval rho g_y7) with (hy7 rho).
+    rewrite depth_on_ground by (assumption || (unfold hz9 in *; lra)). reflexivity.
   - (* z9 = 0, y9 : groove centre *)
     destruct I as [E|[]]. subst p. cbn [fst snd]. change (eval rho g_z9) with 0. change (eval rho g_y9) with (hy9 rho).
     rewrite depth_on_ground by (assumption || lra). reflexivity.
